@@ -102,24 +102,7 @@ def check(R):
 
     # ---- c2 -------------------------------------------------------------------
     with R.clause('c2'):
-        hd = closure_in(R, TR + '::handle_dropped_exchange', ['Sessions::get_exch'])
-        preds = [b for b in F.nested(TR + '::handle_dropped_exchange') if b.kind == 'closure' and 'transport::exchange::Role::is_dropped_state' in b.calls_summary]
-        R.floor('dropped-exchange predicates', len(preds), 2)
-        pol = []
-        for pb in preds:
-            extra = sorted(c for c in pb.calls_summary if c.startswith('transport::') and c not in ('transport::exchange::Role::is_dropped_state', 'transport::mrp::ReliableMessage::is_retrans_pending'))
-            R.expect('P5', pb.fn, 'the dropped-exchange sweep partitions dropped exchanges by `retransmission pending` only', not extra and 'transport::mrp::ReliableMessage::is_retrans_pending' in pb.calls_summary,
-                     'is_dropped_state() && [!]is_retrans_pending()', f'predicate also consults {extra}: a dropped exchange matching neither predicate is never closed and pins its session')
-            nf = prims.nonfalse_result_bbs(pb)
-            t = pb.calls('transport::mrp::ReliableMessage::is_retrans_pending')
-            if t:
-                tr = prims.track_result(F, pb, t[0])
-                rd_ = prims.result_defs(pb)
-                direct = any(k == 'call' and p.get('f', '').endswith('is_retrans_pending') for bb, k, p in rd_)
-                neg = any(k == 'expr' and p.get('op') == 'un' and p.get('u') == 'Not' for bb, k, p in rd_)
-                pol.append('+' if direct else ('-' if neg else '?'))
-        R.expect('P5', TR + '::handle_dropped_exchange', 'one predicate takes retransmission-pending exchanges, the other exactly the rest', sorted(pol) == ['+', '-'], str(pol), f'polarities {pol}: the two lookups do not cover every dropped exchange')
-
+        dropped_partition_rule(R)
     # ---- d --------------------------------------------------------------------
     with R.clause('d'):
         pass
@@ -192,3 +175,26 @@ def _fail_edges(R, body, callee):
     for t in sites:
         e |= prims.track_result(R.facts, body, t).failure
     return e
+
+
+def dropped_partition_rule(R):
+    """the dropped-exchange sweep reaches every dropped exchange: its two lookups split them by `retransmission pending` and nothing else"""
+    F = R.facts
+    hd = closure_in(R, TR + '::handle_dropped_exchange', ['Sessions::get_exch'])
+    preds = [b for b in F.nested(TR + '::handle_dropped_exchange') if b.kind == 'closure' and 'transport::exchange::Role::is_dropped_state' in b.calls_summary]
+    R.floor('dropped-exchange predicates', len(preds), 2)
+    pol = []
+    for pb in preds:
+        extra = sorted(c for c in pb.calls_summary if c.startswith('transport::') and c not in ('transport::exchange::Role::is_dropped_state', 'transport::mrp::ReliableMessage::is_retrans_pending'))
+        R.expect('P5', pb.fn, 'the dropped-exchange sweep partitions dropped exchanges by `retransmission pending` only', not extra and 'transport::mrp::ReliableMessage::is_retrans_pending' in pb.calls_summary,
+                 'is_dropped_state() && [!]is_retrans_pending()', f'predicate also consults {extra}: a dropped exchange matching neither predicate is never closed and pins its session')
+        nf = prims.nonfalse_result_bbs(pb)
+        t = pb.calls('transport::mrp::ReliableMessage::is_retrans_pending')
+        if t:
+            tr = prims.track_result(F, pb, t[0])
+            rd_ = prims.result_defs(pb)
+            direct = any(k == 'call' and p.get('f', '').endswith('is_retrans_pending') for bb, k, p in rd_)
+            neg = any(k == 'expr' and p.get('op') == 'un' and p.get('u') == 'Not' for bb, k, p in rd_)
+            pol.append('+' if direct else ('-' if neg else '?'))
+    R.expect('P5', TR + '::handle_dropped_exchange', 'one predicate takes retransmission-pending exchanges, the other exactly the rest', sorted(pol) == ['+', '-'], str(pol), f'polarities {pol}: the two lookups do not cover every dropped exchange')
+
